@@ -69,9 +69,23 @@ func NewVoxelSDF3(s SDF3, meshCells int, progress chan float64) SDF3 {
 func (m *VoxelSDF3) Evaluate(p v3.Vec) float64 {
 	// Find the voxel's {0,0,0} corner quickly and compute p's displacement
 	voxelSize := m.bb.Size().Div(conv.V3iToV3(m.numVoxels))
+	// There is no data outside the sampled box: evaluate at the nearest point
+	// of the box and add the distance to it.
+	outside := p.Sub(p.Clamp(m.bb.Min, m.bb.Max)).Length()
+	p = p.Clamp(m.bb.Min, m.bb.Max)
 	voxelStartIndex := conv.V3ToV3i(p.Sub(m.bb.Min).Div(voxelSize))
+	// a point on a max face belongs to the last voxel
+	if voxelStartIndex.X >= m.numVoxels.X {
+		voxelStartIndex.X = m.numVoxels.X - 1
+	}
+	if voxelStartIndex.Y >= m.numVoxels.Y {
+		voxelStartIndex.Y = m.numVoxels.Y - 1
+	}
+	if voxelStartIndex.Z >= m.numVoxels.Z {
+		voxelStartIndex.Z = m.numVoxels.Z - 1
+	}
 	voxelStart := m.bb.Min.Add(voxelSize.Mul(conv.V3iToV3(voxelStartIndex)))
-	d := p.Sub(voxelStart).Div(voxelSize) // [0, 1) for each dimension
+	d := p.Sub(voxelStart).Div(voxelSize) // [0, 1] for each dimension
 	// Get the values at the voxel's corners
 	c000 := m.voxelCorners[voxelStartIndex]
 	c001 := m.voxelCorners[voxelStartIndex.Add(v3i.Vec{0, 0, 1})]
@@ -92,7 +106,7 @@ func (m *VoxelSDF3) Evaluate(p v3.Vec) float64 {
 	c1 := c01*(1-d.Y) + c11*d.Y
 	// - 1 trilinear interpolation
 	c := c0*(1-d.Z) + c1*d.Z
-	return c
+	return c + outside
 }
 
 // BoundingBox returns the bounding box for a VoxelSDF3.
